@@ -9,7 +9,7 @@
    on who receives it.  [cfg0 lim pas] is the configuration without a chosencases filter
    (the filter is property C14).  [step_const] = 4. *)
 From Coq Require Import List Arith Bool NArith.
-From PV Require Import Model.Provider Model.ProviderFile Model.ProviderScan Model.ProviderFrame Proofs.ProviderProofs Proofs.ProviderFileProofs Proofs.ProviderScanProofs Proofs.ProviderFrameProofs.
+From PV Require Import Model.Provider Model.ProviderFile Model.ProviderScan Model.ProviderFrame Model.Preload Model.ProviderProbe Proofs.ProviderProofs Proofs.ProviderFileProofs Proofs.ProviderScanProofs Proofs.ProviderFrameProofs Proofs.PreloadProofs Proofs.ProviderFilterProofs.
 Import ListNotations.
 
 (* Exactly min of the non-zero bounds among limit and passes*n items are delivered, and they
@@ -255,3 +255,100 @@ Example C08_frame_examples :
   /\ closed (run_framed KGrpcJson false (cfg0 3 0) [e 0] None 100) = true
   /\ ids (delivered (run_framed KDecode true (cfg0 3 0) [e 0; e 1] None 100)) = [0; 1; 0].
 Proof. repeat split; reflexivity. Qed.
+
+(* ---- the chosencases filter (round 8; Proofs/ProviderFilterProofs.v) ---------------------------
+
+   The http providers and grpc/json carry a `chosencases` list; "exactly min(limit, passes x
+   entries) items ... after which the provider finishes without error" and "never keeps consumers
+   blocked, never spins" are then about the entries the list selects.  [has_filter k]: the http
+   kinds (streaming and preloaded) and grpc/json; [cfgc lim pas ch]: the configuration with the
+   list [ch] (any list: tags that do not occur, repetitions); [chosen_entries ch es]: the entries
+   of the file the list selects, in file order; [c14_const n] = 2n + 4 (between two deliveries a
+   provider may have to read to the end of the file and on to the next chosen entry). *)
+
+(* Something is chosen: the bounds count what is delivered.  A bounded run delivers exactly the
+   cyclic prefix of the chosen entries of length min of the non-zero bounds among limit and
+   passes * (number of chosen entries), returns nil, closes the sink; every run delivers such a
+   prefix, within the bound and the cancellation point, in a number of loop iterations linear in
+   the deliveries (no spinning); cancelled after j items it returns within the budget, sink closed. *)
+Theorem C08_filtered : forall (k : pkind) es lim pas ch,
+  has_filter k = true ->
+  let src := chosen_entries ch es in
+  src <> [] ->
+  let n := length es in
+  let C := c14_const n in
+  let runk := run k (cfgc lim pas ch) es in
+  (forall b fuel, bound lim pas (length src) = Some b -> C * (b + n + 1) < fuel ->
+     let r := runk None fuel in
+     delivered r = cyc_prefix src b /\ out r = Ok /\ closed r = true /\ acquire_after r = AcqEndOfAmmo)
+  /\ (forall cancel fuel,
+        let r := runk cancel fuel in
+        delivered r = cyc_prefix src (length (delivered r))
+        /\ le_opt (length (delivered r)) (bound lim pas (length src))
+        /\ (forall j, cancel = Some j -> length (delivered r) <= j)
+        /\ steps r <= C * (length (delivered r) + n + 1)
+        /\ (out r = OutOfFuel -> steps r = fuel))
+  /\ (forall j fuel, C * (j + n + 1) < fuel ->
+        let r := runk (Some j) fuel in
+        out r <> OutOfFuel /\ closed r = true /\ acquire_after r = AcqEndOfAmmo /\ clean_or_cancelled (out r)).
+Proof. exact c08_filtered. Qed.
+Print Assumptions C08_filtered.
+
+(* Nothing is chosen (a misspelt tag): there is nothing to deliver whatever limit and passes say
+   — also when both are 0.  Every provider with the option then ends BY ITSELF within
+   (2n+4)(n+1) loop iterations: nothing delivered, Run returns "no ammo" (the decoders' sentinel
+   for the http kinds, grpc/json's own error), the sink is closed and every waiting instance
+   sees end of ammo.  (How the run is reported to the user is C13's; that it ends is C08's.) *)
+Theorem C08_nothing_chosen_ends : forall (k : pkind) es lim pas ch cancel fuel,
+  has_filter k = true -> es <> [] -> chosen_entries ch es = [] -> is_cancelled cancel 0 = false ->
+  let x := run k (cfgc lim pas ch) es cancel fuel in
+  let C := c14_const (length es) * (length es + 1) in
+  delivered x = [] /\ steps x <= C
+  /\ (C < fuel -> no_ammo_outcome (out x) /\ closed x = true /\ acquire_after x = AcqEndOfAmmo).
+Proof. exact filtered_nomatch. Qed.
+Print Assumptions C08_nothing_chosen_ends.
+
+(* The providers without the option ignore the list. *)
+Theorem C08_list_ignored_without_option : forall k lim pas ch es cancel fuel,
+  has_filter k = false -> run k (cfgc lim pas ch) es cancel fuel = run k (cfg0 lim pas) es cancel fuel.
+Proof. exact no_filter_ignores_list. Qed.
+Print Assumptions C08_list_ignored_without_option.
+
+(* Why the streaming http path ends when nothing is chosen and passes = 0: only through its
+   whole-pass probe (`delivered == 0 && p.fullPassDone()`), whose answer hangs on a type assertion
+   to `interface{ PassNum() uint }` (Model/ProviderProbe.v).  With the probe the code has, the
+   parametrised loop is the streaming provider of the theorems above; with a probe that never
+   fires (the assertion does not hold for the decoder type) the loop is a `continue` for ever:
+   for EVERY fuel Run has not returned, nothing was delivered, the sink is open, every instance
+   is blocked in Acquire — for every decoder kind, every file, every limit. *)
+Theorem C08_probe_of_the_code : forall k cf es cancel fuel,
+  stream_run_p probe_code k cf es cancel fuel = run (KHttp k false) cf es cancel fuel.
+Proof. exact stream_run_p_code. Qed.
+Print Assumptions C08_probe_of_the_code.
+
+Theorem C08_dead_probe_never_ends : forall k es lim ch fuel,
+  es <> [] -> chosen_entries ch es = [] ->
+  let r := stream_run_p probe_dead k (cfgc lim 0 ch) es None fuel in
+  out r = OutOfFuel /\ delivered r = [] /\ closed r = false /\ acquire_after r = AcqBlocked /\ steps r = fuel.
+Proof. exact dead_probe_spins. Qed.
+Print Assumptions C08_dead_probe_never_ends.
+
+(* Non-vacuity: three entries, tags 0 1 2.  grpc/json, list [2;0], limit 5: entries 0 2 0 2 0, nil;
+   passes 2: 0 2 0 2; uri streaming with limit 3 and list [7]: nothing, "no ammo", sink closed after
+   one pass; grpc/json likewise; the same uri run with a dead probe is still going after 2000
+   iterations with the sink open; the scenario loop ignores the list. *)
+Example C08_filter_examples :
+  let e i := {| e_tag := i; e_id := i |} in
+  let es := [e 0; e 1; e 2] in
+  ids (delivered (run KGrpcJson (cfgc 5 0 [2; 0]) es None 200)) = [0; 2; 0; 2; 0]
+  /\ out (run KGrpcJson (cfgc 5 0 [2; 0]) es None 200) = Ok
+  /\ ids (delivered (run KGrpcJson (cfgc 0 2 [2; 0]) es None 200)) = [0; 2; 0; 2]
+  /\ chosen_entries [7] es = []
+  /\ out (run (KHttp DUri false) (cfgc 3 0 [7]) es None 200) = Failed ENoAmmo
+  /\ closed (run (KHttp DUri false) (cfgc 3 0 [7]) es None 200) = true
+  /\ steps (run (KHttp DUri false) (cfgc 3 0 [7]) es None 200) <= 5
+  /\ out (run KGrpcJson (cfgc 0 0 [7]) es None 200) = Failed ENoAmmoText
+  /\ out (stream_run_p probe_dead DUri (cfgc 3 0 [7]) es None 2000) = OutOfFuel
+  /\ closed (stream_run_p probe_dead DUri (cfgc 3 0 [7]) es None 2000) = false
+  /\ ids (delivered (run KScenario (cfgc 2 0 [7]) es None 200)) = [0; 1].
+Proof. vm_compute. repeat split; repeat constructor. Qed.
